@@ -253,7 +253,10 @@ def run(ctx):
                  for ad, enc, _ in writer.get('property', []))
     src = ast.unparse(gx.node)
     ctx.ob('C15.D2', gx.qualname, 'writes-access-mode',
-           acc_ok and 'p.access' in src,
+           acc_ok and any(isinstance(n_, ast.Attribute) and
+                          n_.attr == 'access' and
+                          isinstance(n_.ctx, ast.Load)
+                          for n_ in ast.walk(gx.node)),
            'the property element must carry the access mode of the '
            'Property', nontrivial=False)
     # D4 reuse polarity ---------------------------------------------------------------
